@@ -535,6 +535,64 @@ VARIANTS = [
      "old": "    def __init__(self, struct_fmt):\n        self._struct_fmt: str = struct_fmt\n",
      "new": "    def __init__(self, struct_fmt, wide_fmt=None):\n        self._struct_fmt: str = struct_fmt\n"
             "        self._wide = struct.Struct(\">\" + (wide_fmt or struct_fmt))\n"},
+    # ------------------------------------------------------------------ audit round (anchored on the repaired text)
+    {"name": "R18 DataclassAdapter.encode deep-converts with dataclasses.asdict again (D75)", "file": SER, "expect": "C08.R18",
+     "old": "            val = {field.name: getattr(val, field.name) for field in dataclasses.fields(val)}\n",
+     "new": "            val = dataclasses.asdict(val)\n"},
+    {"name": "P R18 shallow conversion spelled with dict() over the fields", "file": SER, "expect": "silent",
+     "old": "            val = {field.name: getattr(val, field.name) for field in dataclasses.fields(val)}\n",
+     "new": "            val = dict((f.name, getattr(val, f.name)) for f in dataclasses.fields(val))\n"},
+    {"name": "R15 Str.deserialize rstrips every trailing NUL again (D76)", "file": SER, "expect": "C08.R15",
+     "old": "        val = reader.read(self._bytes_tmpl, ctx=ctx)\n"
+            "        # Only take off the one terminator serialize() adds, any further NULs are data\n"
+            "        if self._null_term and val.endswith(b\"\\x00\"):\n            val = val[:-1]\n"
+            "        return val.decode(\"utf8\")\n",
+     "new": "        return reader.read(self._bytes_tmpl, ctx=ctx).rstrip(b\"\\x00\").decode(\"utf8\")\n"},
+    {"name": "P R15 Str.deserialize takes the single terminator off with removesuffix", "file": SER, "expect": "silent",
+     "old": "        if self._null_term and val.endswith(b\"\\x00\"):\n            val = val[:-1]\n"
+            "        return val.decode(\"utf8\")\n",
+     "new": "        if self._null_term:\n            val = bytes(val).removesuffix(b\"\\x00\")\n        return val.decode(\"utf8\")\n"},
+    {"name": "R2 BitField.pack shift path checks only the upper bound again (D77)", "file": HELPERS, "expect": "C08.R2",
+     "old": "                if not 0 <= val <= mask:\n", "new": "                if val > mask:\n"},
+    {"name": "P R2 BitField.pack bounds spelled as two comparisons", "file": HELPERS, "expect": "silent",
+     "old": "                if not 0 <= val <= mask:\n", "new": "                if val < 0 or val > mask:\n"},
+    {"name": "R19 QuantizedFloat hard-codes zero_median=False for its base class again (D78)", "file": SER, "expect": "C08.R19",
+     "old": "        super().__init__(prim_spec, zero_median=bool(zero_median))\n",
+     "new": "        super().__init__(prim_spec, zero_median=False)\n"},
+    {"name": "P R19 explicit zero_median applied after the base constructor", "file": SER, "expect": "silent",
+     "old": "        super().__init__(prim_spec, zero_median=bool(zero_median))\n",
+     "new": "        super().__init__(prim_spec, zero_median=False)\n        if zero_median:\n            self.zero_median = True\n"},
+    {"name": "R20 half-step nudge applied even when 0.0 sits on a code again (D79)", "file": SER, "expect": "C08.R20",
+     "old": "            if abs(zero_pos - round(zero_pos)) > 1e-6:\n                # Only change the value a tiny bit so the rounding is biased\n"
+            "                # towards the correct value\n                nudge = delta * self.step_mag * 0.5\n"
+            "                nudge = math.copysign(nudge, val)\n",
+     "new": "            nudge = delta * self.step_mag * 0.5\n            nudge = math.copysign(nudge, val)\n"},
+    {"name": "P R20 on-code test computed into a local first", "file": SER, "expect": "silent",
+     "old": "            if abs(zero_pos - round(zero_pos)) > 1e-6:\n",
+     "new": "            between_codes = abs(round(zero_pos) - zero_pos) > 1e-6\n            if between_codes:\n"},
+    # re-anchored copies of earlier variants whose text the audit repairs change
+    {"name": "R2 BitField per-member check hoisted out of the loop (seed 1, repaired text)", "file": HELPERS, "expect": "C08.R2",
+     "edits": [
+         {"file": HELPERS, "old": "                if not 0 <= val <= mask:\n                    raise ValueError(\"%r not within 0..%r\" % (val, mask))\n",
+          "new": ""},
+         {"file": HELPERS, "old": "            cur_bit += bits\n        return packed\n",
+          "new": "            cur_bit += bits\n        if self.shift and not 0 <= packed <= self._bits_mask(cur_bit):\n"
+                 "            raise ValueError(\"%r larger than max\" % (packed,))\n        return packed\n"}]},
+    {"name": "P R2 BitField range check as an explicit conjunction (repaired text)", "file": HELPERS, "expect": "silent",
+     "old": "                if not 0 <= val <= mask:\n", "new": "                if not (0 <= val and val <= mask):\n"},
+    {"name": "P R2 BitField per-member work moved into a helper (repaired text)", "file": HELPERS, "expect": "silent",
+     "edits": [
+         {"file": HELPERS, "old": "            if self.shift:\n                if not 0 <= val <= mask:\n"
+          "                    raise ValueError(\"%r not within 0..%r\" % (val, mask))\n                packed |= val << cur_bit\n",
+          "new": "            if self.shift:\n                packed |= self._shifted(vals[name], mask, cur_bit)\n"},
+         {"file": HELPERS, "old": "    def unpack(self, packed):\n",
+          "new": "    def _shifted(self, member, limit, at):\n        if member < 0 or member > limit:\n"
+                 "            raise ValueError(\"%r not within 0..%r\" % (member, limit))\n        return member << at\n\n"
+                 "    def unpack(self, packed):\n"}]},
+    {"name": "R15 Str strips NULs on both ends although the writer only appends one (repaired text)", "file": SER,
+     "expect": "C08.R15",
+     "old": "        if self._null_term and val.endswith(b\"\\x00\"):\n            val = val[:-1]\n        return val.decode(\"utf8\")\n",
+     "new": "        return bytes(val).strip(b\"\\x00\").decode(\"utf8\")\n"},
     # ------------------------------------------------------------------ documented limits (value level)
     {"name": "R15 Str strips NULs on both ends although the writer only appends one", "file": SER, "expect": "C08.R15",
      "old": "                instance += b\"\\x00\"\n        writer.write(self._bytes_tmpl, instance, ctx=ctx)\n\n"
